@@ -36,17 +36,6 @@ def setcfg(ctx, cfg, out, **kv):
     return out
 
 
-def fix_sim_labels(pattern):
-    """TLC prints '<Act(args) line a, col b to line c, col d of module M>' above every simulated state; the engine's
-    LoadSim cuts the label at the LAST ' line ', which is inside the location when it has the 'to line' part.
-    Rewrite the comment so that only one ' line ' remains (work-around in this check's own scratch files)."""
-    import glob, re
-    rx = re.compile(r"^(\\\* <.*?) line \d+, col \d+ to line \d+, col \d+ of module \w+>$", re.M)
-    for f in glob.glob(pattern):
-        txt = open(f).read()
-        open(f, "w").write(rx.sub(r"\1 line 0>", txt))
-
-
 def run(ctx):
     ctx.build()
     quick = ctx.quick()
@@ -108,7 +97,6 @@ def run(ctx):
     num, dep, batches = (500, 20, 1) if quick else (5000, 26, 2)
     for b in range(batches):
         sim = ctx.tlc_simulate("MCJournal", "MCJournal_All.cfg", num, dep, "all%d" % b, timeout=900, seed=ctx.seed * 10 + b)
-        fix_sim_labels(sim)
         files, summ = ctx.replay("journal", sim=sim, shards=8, name="journal-sim%d" % b)
         ctx.validate("TraceJournal", "TraceJournal.cfg", files, what="simulated behaviours of the full model", timeout=3000)
         for f in __import__("glob").glob(sim):
